@@ -18,7 +18,8 @@ MANIFEST = {
     "note": "trusted: Coq kernel + vm_compute; hand transcription of 26 built-in arms and of the Access/DotAccess/"
             "Spread arms and of the repo's own stable merge sort (validated by correspondence every run); "
             "str::split/replace/contains as naive search, str::trim/to_uppercase/to_lowercase and f64 Display as oracles; "
-            "C14_count_num_exact alone uses Flocq's real-number layer (the four allow-listed classical axioms)",
+            "C14_count_num_exact and C14_count_by_counts_exact alone use Flocq's real-number layer (the four "
+            "allow-listed classical axioms)",
     "design_ref": "notes/C14.md (DESIGN.md section 6 C14)",
 }
 REQS = ["Blots.Num", "Blots.gen.Builtins", "Blots.Ast", "Blots.Value", "Blots.Outcome", "Blots.Show",
